@@ -131,6 +131,13 @@ def build_app(L, B, seen, how='ctor'):
 
     @app.route('/forms', method='POST')
     def forms():
+        if app.request.content_type.startswith('application/x-www-form-urlencoded') and app.request.query.get('again'):
+            # an audit hook looked at the form first and swallowed the refusal: the handler's own look is refused as well
+            import ombott as _o
+            try:
+                app.request.forms
+            except _o.HTTPError:
+                seen['first_refused'] = True
         f = app.request.forms
         seen['forms'] = dict(f)
         seen['type'] = type(app.request.body).__name__
@@ -206,7 +213,10 @@ def cell(ctx, app, seen, S_target, L, B, framing, kind, grid=False):
             extra = {'CONTENT_LENGTH': str(int(L or B) * 50 + 7)}
         if extra:
             ctx.count('chunked_with_misleading_content_length')
-        env = make_environ('POST', ('/rawcopy' if via_copy else '/raw') if kind == 'raw' else '/forms', stream=st, content_length=None, chunked=True, content_type=ctype, extra=extra)
+        env = make_environ('POST', ('/rawcopy' if via_copy else '/raw') if kind == 'raw' else '/forms', stream=st, content_length=None, chunked=True, content_type=ctype, extra=extra,
+                           qs='again=1' if kind == 'urlencoded' and (S + B) % 2 else '')
+        if kind == 'urlencoded' and (S + B) % 2:
+            ctx.count('form_asked_again_after_a_swallowed_refusal')
         ctx.count('chunked_cells')
     seen.clear()
     r = call_app(app, env)
@@ -223,6 +233,12 @@ def cell(ctx, app, seen, S_target, L, B, framing, kind, grid=False):
     ctx.case(None if grid else (S, L, B, framing, kind), nontrivial=near)
     if r.escaped is not None or r.problems:
         ctx.violation('wsgi-contract-broken', f'{where}: {r.escaped!r} {r.problems}', wit)
+        return
+    if env.get('QUERY_STRING') == 'again=1':
+        # the form was asked for twice (the first refusal swallowed): the second look reads on in the stream, so status and consumption are
+        # not those of a single look - what stays is that text beyond the in-memory budget is never handed over
+        if r.code == 200 and seen.get('forms') and (S > B or (L is not None and S > L)):
+            ctx.violation('urlencoded-form-text-over-threshold-loaded', f'{where}: delivered {len(str(seen["forms"]))} chars at the second look (first look refused: {bool(seen.get("first_refused"))})', wit)
         return
     over = L is not None and S > L
     ctx.count('consumption_checked')
